@@ -194,6 +194,25 @@ def mode_deep(ctx, case):
                     ctx.violation("deep-not-honoured", "deep=True with strategy 'always' did not overwrite a same-stat differing file",
                                   {"entry": entry, "file": [k, rel]})
                     return
+            # the same process goes on: a deep sync of the now identical trees, then the destination file changes again
+            # without changing size or time stamp, then another deep sync - which compares contents, not memories
+            opts["strategy"] = None
+            err_same = run_entry(D, S, src_spec, dst_spec, opts, entry, [], [], deep=True)
+            if err_same is None:
+                k, rel = same_sig[0]
+                p = os.path.join(D.path, "workspace", model.model_id(syncgen.sp_of(k)), rel)
+                st = os.stat(p)
+                with open(p, "w") as f:
+                    f.write(dst_spec["jobs"][k]["files"][rel][0])
+                os.utime(p, ns=(st.st_atime_ns, st.st_mtime_ns))
+                if os.stat(p).st_size == st.st_size:
+                    err_again = run_entry(D, S, src_spec, dst_spec, opts, entry, [], [], deep=True)
+                    ctx.monitor("deep_detects_same_stat")
+                    if not isinstance(err_again, FileSyncConflict):
+                        ctx.violation("deep-trusts-earlier-comparison",
+                                      "deep=True did not report a file that changed (same size, same mtime) after an earlier deep sync had found it identical",
+                                      {"entry": entry, "file": [k, rel], "outcome": repr(err_again)})
+                        return
     ctx.distinct("nontrivial", case)
 
 
